@@ -30,7 +30,7 @@ func genCase(t *rapid.T) Case {
 	schema := gen.Schema(t, so)
 	// three shapes: small insert-only (exactness regime a), general small, larger
 	shape := rapid.IntRange(0, 2).Draw(t, "shape")
-	ho := gen.HistoryOpts{MaxSteps: 8, MaxBatch: 12, PoolSize: 24, Reopen: true, Evict: true, FieldProb: 88,
+	ho := gen.HistoryOpts{MaxSteps: 8, MaxBatch: 12, PoolSize: 24, Reopen: true, Evict: true, FieldProb: rapid.SampledFrom([]int{35, 70, 90, 100}).Draw(t, "fieldProb"),
 		AllowRejected: rapid.IntRange(0, 5).Draw(t, "allowRejected") == 0}
 	if shape == 2 {
 		ho.PoolSize, ho.MaxBatch = 90, 60
@@ -66,6 +66,19 @@ func genCase(t *rapid.T) Case {
 		for j := 0; j < k; j++ {
 			vec, limit, w, f := gen.VecQueryParts(t, fmt.Sprintf("q%d.%d", i, j), g.M, g.Pool, gen.PVamana, 75)
 			ss := rapid.IntRange(max(25, limit), 75).Draw(t, fmt.Sprintf("ss%d.%d", i, j))
+			// boundary of the exactness claim: a pre-filter with exactly searchSize (or one fewer / one more) members
+			if stored := g.M.Ids(); len(stored) >= 26 && rapid.IntRange(0, 2).Draw(t, fmt.Sprintf("bf%d.%d", i, j)) == 0 {
+				ss = rapid.IntRange(25, min(75, len(stored)-1)).Draw(t, fmt.Sprintf("bfss%d.%d", i, j))
+				k := ss + rapid.SampledFrom([]int{-1, 0, 0, 0, 1}).Draw(t, fmt.Sprintf("bfk%d.%d", i, j))
+				perm := rapid.Permutation(stored).Draw(t, fmt.Sprintf("bfids%d.%d", i, j))
+				vals := make([]string, 0, k)
+				for _, id := range perm[:min(k, len(perm))] {
+					vals = append(vals, id.String())
+				}
+				fq := models.Query{Property: "_id", StringArray: &models.SearchStringArrayOptions{Value: vals, Operator: models.OperatorContainsAny}}
+				f = &fq
+				limit = rapid.SampledFrom([]int{ss, ss, max(1, ss-1), rapid.IntRange(1, ss).Draw(t, fmt.Sprintf("bfl%d.%d", i, j))}).Draw(t, fmt.Sprintf("bflim%d.%d", i, j))
+			}
 			q := oracle.VecQuery{Prop: gen.PVamana, Vector: vec, Limit: limit, SearchSize: ss, Weight: w, Filter: f}
 			gen.MustValid(q.ToQuery(schema), schema)
 			qs = append(qs, q)
